@@ -62,7 +62,7 @@ theorem rel_put (p : Pair) (sp : SPair) (h : Rel p sp) (r : Reg) (v : T) (sv : N
 theorem reset_inv (b : T) : Inv (reset b) := by unfold Inv reset; rfl
 theorem reset_mem (b : T) (x : Nat) : mem (reset b) x = false := by unfold mem reset; exact bit_nil x
 
-theorem step_refines (hsw : SwarPopcount) (p : Pair) (sp : SPair) (h : Rel p sp) (op : Op) :
+theorem step_refines (p : Pair) (sp : SPair) (h : Rel p sp) (op : Op) :
     Rel (applyOp p op) (specOp sp op) := by
   cases op with
   | set r i =>
@@ -72,13 +72,13 @@ theorem step_refines (hsw : SwarPopcount) (p : Pair) (sp : SPair) (h : Rel p sp)
   | flip r i =>
     exact rel_put p sp h r _ _ ⟨flipBit_inv _ i (h r).1, fun x => by rw [flipBit_mem, (h r).2]⟩
   | setRange r s e =>
-    obtain ⟨h1, h2⟩ := setRange_spec hsw (p.get r) s e
+    obtain ⟨h1, h2⟩ := setRange_spec (p.get r) s e
     exact rel_put p sp h r _ _ ⟨h2 (h r).1, fun x => by rw [h1, (h r).2]; rfl⟩
   | clearRange r s e =>
-    obtain ⟨h1, h2⟩ := clearRange_spec hsw (p.get r) s e
+    obtain ⟨h1, h2⟩ := clearRange_spec (p.get r) s e
     exact rel_put p sp h r _ _ ⟨h2 (h r).1, fun x => by rw [h1, (h r).2]; rfl⟩
   | flipRange r s e =>
-    obtain ⟨h1, h2⟩ := flipRange_spec hsw (p.get r) s e
+    obtain ⟨h1, h2⟩ := flipRange_spec (p.get r) s e
     exact rel_put p sp h r _ _ ⟨h2 (h r).1, fun x => by rw [h1, (h r).2]; rfl⟩
   | load r ws =>
     exact rel_put p sp h r _ _ ⟨load_inv _ ws, fun x => load_bit _ ws x⟩
@@ -132,11 +132,11 @@ theorem step_refines (hsw : SwarPopcount) (p : Pair) (sp : SPair) (h : Rel p sp)
     rw [load_bit, trim_bit]
     exact (h q).2 x
 
-theorem foldl_refines (hsw : SwarPopcount) (ops : List Op) : ∀ (p : Pair) (sp : SPair), Rel p sp →
+theorem foldl_refines (ops : List Op) : ∀ (p : Pair) (sp : SPair), Rel p sp →
     Rel (ops.foldl applyOp p) (ops.foldl specOp sp) := by
   induction ops with
   | nil => intro p sp h; exact h
-  | cons op ops ih => intro p sp h; exact ih _ _ (step_refines hsw p sp h op)
+  | cons op ops ih => intro p sp h; exact ih _ _ (step_refines p sp h op)
 
 theorem rel_init : Rel {} ⟨fun _ => false, fun _ => false⟩ := by
   intro r
@@ -144,8 +144,8 @@ theorem rel_init : Rel {} ⟨fun _ => false, fun _ => false⟩ := by
   · exact ⟨rfl, fun x => bit_nil x⟩
   · exact ⟨rfl, fun x => bit_nil x⟩
 
-theorem run_rel (hsw : SwarPopcount) (ops : List Op) : Rel (run ops) (specRun ops) :=
-  foldl_refines hsw ops _ _ rel_init
+theorem run_rel (ops : List Op) : Rel (run ops) (specRun ops) :=
+  foldl_refines ops _ _ rel_init
 
 /-! ### membership alone: no assumption about `countSetBits` -/
 
